@@ -19,6 +19,7 @@ NoNames == <<>>
 BaseVW == << <<118>>, <<119, 119>> >>       \* "v.ww"
 AllCfgs == {"top", "null", "view"}
 Big == 1000000
+AllQuotes == 0..255
 TConfigs == {[fmt |-> CT!Null, acc |-> CT!Null]}
 
 Ev == TraceLog[l]
